@@ -617,8 +617,8 @@ def lin_stress(ctx, binp):
             ctx.log("linstress run %d timed out (skipped)" % k)
             continue
         if p.returncode != 0 or not os.path.exists(hf):
-            ctx.log("linstress run %d failed (exit %d): %s" % (k, p.returncode, p.stderr[-300:]))
-            continue
+            # the process that hosts the real nodes died (a panic of the code under test, or of the driver)
+            raise vf.Inconclusive("linstress run %d ended with exit %d: %s" % (k, p.returncode, p.stderr[-600:]))
         lines = open(hf).read().splitlines()
         while lines:
             tp = os.path.join(ctx.scratch, "linstress-part.ndjson")
